@@ -87,24 +87,24 @@ def _cms_history(ops, width, depth, cls_name):
         if op[0] == "swap":
             cur = b if cur is a else a
             continue
-        before = (list(cur._bins), cur.elements_added)
+        before = (core.cms_bins(cur), cur.elements_added)
         if op[0] in ("add", "rem"):
             _, hs, n = op
             res = core.call(cur.add_alt if op[0] == "add" else cur.remove_alt, hs, n)
             if res[0] == "err":
-                changed = (list(cur._bins), cur.elements_added) != before
+                changed = (core.cms_bins(cur), cur.elements_added) != before
                 return f"step {step} {cls_name}.{op[0]}_alt(n={n}) raised {res[1]}" + ("; cells were left half-updated" if changed else "")
             sign = 1 if op[0] == "add" else -1
             for i, h in enumerate(hs[:depth]):
                 j = h % width + i * width
                 want = max(I32MIN, min(I32MAX, before[0][j] + sign * n))
-                if cur._bins[j] != want:
-                    return f"step {step}: bin {j} is {cur._bins[j]}, expected pinned value {want}"
+                if core.cms_bins(cur)[j] != want:
+                    return f"step {step}: bin {j} is {core.cms_bins(cur)[j]}, expected pinned value {want}"
             want_total = max(I64MIN, min(I64MAX, before[1] + sign * n))
             if cur.elements_added != want_total:
                 return f"step {step}: elements_added {cur.elements_added}, expected {want_total}"
             if cls_name == "CountMinSketch":
-                vals = sorted(cur._bins[h % width + i * width] for i, h in enumerate(hs[:depth]))
+                vals = sorted(core.cms_bins(cur)[h % width + i * width] for i, h in enumerate(hs[:depth]))
                 if res[1] != vals[0]:
                     return f"step {step}: returned {res[1]}, pinned estimate is {vals[0]}"
         else:
@@ -112,18 +112,18 @@ def _cms_history(ops, width, depth, cls_name):
             res = core.call(cur.join, other)
             if res[0] == "err":
                 return f"step {step} join of near-limit sketches raised {res[1]}"
-            for j, (x, y) in enumerate(zip(before[0], other._bins)):
+            for j, (x, y) in enumerate(zip(before[0], core.cms_bins(other))):
                 want = x if x in (I32MIN, I32MAX) else max(I32MIN, min(I32MAX, x + y))
-                if cur._bins[j] != want:
-                    return f"step {step}: join bin {j} is {cur._bins[j]}, expected {want}"
+                if core.cms_bins(cur)[j] != want:
+                    return f"step {step}: join bin {j} is {core.cms_bins(cur)[j]}, expected {want}"
             if cur.elements_added != max(I64MIN, min(I64MAX, before[1] + other.elements_added)):
                 return f"step {step}: join total {cur.elements_added}"
-        if any(not (I32MIN <= v <= I32MAX) for v in cur._bins):
+        if any(not (I32MIN <= v <= I32MAX) for v in core.cms_bins(cur)):
             return f"step {step}: bin outside the 32-bit range"
         res = core.call(lambda: cls.frombytes(bytes(cur)))
         if res[0] == "err":
             return f"step {step}: export/load after saturation raised {res[1]}"
-        if list(res[1]._bins) != list(cur._bins) or res[1].elements_added != cur.elements_added:
+        if core.cms_bins(res[1]) != core.cms_bins(cur) or res[1].elements_added != cur.elements_added:
             return f"step {step}: export/load after saturation changed bins or total"
     return None
 
